@@ -10,3 +10,4 @@ CONSTANTS
   Tbc = TRUE
   ViewHist = 0
   EmitAll = FALSE
+  WithKill = FALSE
